@@ -186,6 +186,13 @@ func runC14(c *runCtx) {
 	}
 	for h := 0; h < nh; h++ {
 		nops := 1 + r.Intn(8)
+		if h%4 == 1 && nops < 3 {
+			nops = 3
+		}
+		chain := h%4 == 3 // a chain of extensions, each registered under the previous one, all accepting the same probe
+		if chain {
+			nops = 3 + r.Intn(5)
+		}
 		var ops []c14op
 		var extNames []string
 		probes := append([][]byte{}, probeBase...)
@@ -198,14 +205,24 @@ func runC14(c *runCtx) {
 			if len(extNames) > 0 && r.Intn(5) == 0 {
 				name = extNames[r.Intn(len(extNames))] // the same name registered again
 			}
-			if h%6 == 5 && len(extNames) > 0 {
-				par = extNames[len(extNames)-1] // a chain: each extension under the previous one
+			if h%4 == 1 && i == nops-1 && len(ops) > 0 {
+				// the first extension's name is registered once more, under the same parent, after the others
+				name, par = ops[0].mime, ops[0].parent
 			}
-			if h%6 == 5 && len(extNames) == 0 {
-				par = []string{"application/geo+json", "application/json", "application/vnd.oasis.opendocument.text-template"}[r.Intn(3)]
+			if chain {
+				name = fmt.Sprintf("application/x-verif-%d-%d", h, i)
+				if len(extNames) > 0 {
+					par = extNames[len(extNames)-1]
+				} else {
+					par = []string{"application/geo+json", "application/json", "text/plain", ""}[h/4%4]
+				}
 			}
 			var pred predSpec
-			switch r.Intn(6) {
+			sel := r.Intn(6)
+			if chain {
+				sel = []int{0, 4, 5}[r.Intn(3)]
+			}
+			switch sel {
 			case 0:
 				pred = predSpec{"always", nil, 0}
 			case 1:
@@ -216,7 +233,7 @@ func runC14(c *runCtx) {
 				pred = predSpec{"byteat", []byte{"{%<Pa\x89h"[r.Intn(7)]}, r.Intn(3)}
 			default:
 				pb := probeBase[1+r.Intn(len(probeBase)-1)]
-				if h%6 == 5 {
+				if chain {
 					pb = probeBase[3] // the geojson probe reaches application/geo+json: every link of the chain accepts it
 				}
 				k := 1 + r.Intn(4)
